@@ -27,9 +27,15 @@ def transition(cfg, hist, a, props, before_cache=None):
     raised, placed, new_loans = w.apply(a)
     tr = Tr()
     tr.w, tr.a, tr.raised, tr.placed, tr.new_loans = w, a, raised, placed, new_loans
-    tr.before, tr.after = before, w.snapshot()
+    tr.before = before
     tr.events = list(w.evq[nev:])
     tr.cfg = cfg
+    try:
+        tr.after = w.snapshot()
+    except Exception as x:  # noqa: the read-only public API must keep working in every reachable state
+        tr.after = before
+        return w, tr, [(p, "public-api-raises", f"get_balances/get_orders/get_loans raised {type(x).__name__}: {x} after "
+                        f"{a}") for p in props]
     bad = []
     for p in props:
         for mon in MONITORS[p]:
@@ -54,6 +60,10 @@ def bfs(cfg, alpha, depth, props, res, prefix=(), on_violation=None, max_states=
                 if out is None:
                     continue
                 w, tr, bad = out
+                if bad and bad[0][1] == "public-api-raises":
+                    if on_violation:
+                        on_violation(hist + [a], bad)
+                    continue
                 res.transitions += 1
                 res.executions += 1
                 res.outcomes[(a[0], None if tr.raised is None else tr.raised[0])] += 1
